@@ -66,6 +66,22 @@ Definition answer_of (a : raw_answer) : answer :=
             (mkrp e (map z_of_limbs ss) (aux_of ax))
   end.
 
+(* the body of a status response as encoding/json sees it (recorded by an independent
+   decode into mirror types, NOT through RevocationStatus.UnmarshalJSON) *)
+Inductive raw_wmtp := mkrwm (ex : bool) (sibs : list (option limbs)) (aux : raw_aux).
+Inductive raw_wire := mkrw (st ctr rtr ror : raw_hexf) (mtp : option raw_wmtp).
+Definition wire_of (w : raw_wire) : wire_status :=
+  match w with
+  | mkrw st ctr rtr ror mtp =>
+      mkws (mkts (hexf_of st) (hexf_of ctr) (hexf_of rtr) (hexf_of ror))
+           (match mtp with
+            | None => None
+            | Some (mkrwm e ss ax) => Some (mkwm e (map (option_map z_of_limbs) ss) (aux_of ax))
+            end)
+  end.
+Definition parsed_of (w : option raw_wire) : option answer :=
+  parse_status_body (option_map wire_of w).
+
 (* the answer of the decoy resolvers: the zero value of RevocationStatus *)
 Definition empty_answer : answer := mkans (mkts HNil HNil HNil HNil) (mkrp false [] None).
 
@@ -121,14 +137,16 @@ Inductive scase :=
     (o_cls : int)        (* ValidateCredentialStatus: 0 nil, 1 ErrCredentialIsRevoked,
                             2 any other error, 3 panic *)
 | CHttp (id : int) (transport_ok : bool) (code : limbs) (len : limbs) (read_ok : bool)
-    (parsed : option raw_answer) (close_ok : bool) (obs : hobs)
+    (wire : option raw_wire)  (* the body as encoding/json sees it; None = refused *)
+    (close_ok : bool) (obs : hobs)
 | CCoerce (id : int) (sh : raw_shape) (obs : cobs)
 | CHex (id : int) (s : string) (obs : raw_hexf)
 | CE2E (id : int) (tab : raw_tab) (ty : string) (nonce : limbs)
     (* ValidateCredentialStatus with IssuerResolver registered for ty in the default
        registry and a stub transport answering (code, body): len = size of the body,
-       parsed = json.Unmarshal of the whole body *)
-    (code : limbs) (len : limbs) (parsed : option raw_answer) (o_cls : int).
+       wire = the body as encoding/json sees it; o_dec = json.Unmarshal of the whole body
+       into a RevocationStatus (the decoded view the implementation works with) *)
+    (code : limbs) (len : limbs) (wire : option raw_wire) (o_dec : hobs) (o_cls : int).
 
 Definition case_id (c : scase) : int :=
   match c with
@@ -136,7 +154,7 @@ Definition case_id (c : scase) : int :=
   | CHttp id _ _ _ _ _ _ _ => id
   | CCoerce id _ _ => id
   | CHex id _ _ => id
-  | CE2E id _ _ _ _ _ _ _ => id
+  | CE2E id _ _ _ _ _ _ _ _ => id
   end.
 
 (* ---- comparison helpers ---- *)
@@ -213,9 +231,9 @@ Definition agree (c : scase) : bool :=
         else validate_credential_status P q reg [OptRegistry None] cs in
       Uint63.eqb m_ts o_ts && m_root_ok && negb (ts_miss P (a_issuer a))
       && Uint63.eqb (cls_of m_res) o_cls
-  | CHttp _ tok code len read_ok parsed close_ok obs =>
+  | CHttp _ tok code len read_ok wire close_ok obs =>
       let h := if tok then HResp (z_of_limbs code) (z_of_limbs len) read_ok
-                                 (option_map answer_of parsed) close_ok
+                                 (parsed_of wire) close_ok
                else HTransportErr in
       match http_resolve h, obs with
       | Ok a, HoOk a' => answer_eqb a (answer_of a')
@@ -232,11 +250,15 @@ Definition agree (c : scase) : bool :=
       | _, _ => false
       end
   | CHex _ s obs => hexf_eqb (hex_decode s) (hexf_of obs)
-  | CE2E _ tab ty nonce code len parsed o_cls =>
+  | CE2E _ tab ty nonce code len wire o_dec o_cls =>
       let t := mk_tab tab in
       let P := fun l => lookp l t in
       let n := z_of_limbs nonce in
-      let h := HResp (z_of_limbs code) (z_of_limbs len) true (option_map answer_of parsed) true in
+      let h := HResp (z_of_limbs code) (z_of_limbs len) true (parsed_of wire) true in
+      let dec_ok := match parsed_of wire, o_dec with
+                    | Some a, HoOk a' => answer_eqb a (answer_of a')
+                    | None, HoErr => true
+                    | _, _ => false end in
       let rslv := http_resolver h in
       let missed := match http_resolve h with
                     | Ok a => ts_miss P (a_issuer a)
@@ -244,7 +266,7 @@ Definition agree (c : scase) : bool :=
                                  | Ok r => r =? miss | _ => false end
                     | _ => false end in
       Uint63.eqb (cls_of (validate_credential_status P q (reg_register [] ty rslv) [] (mkcs ty n))) o_cls
-      && negb missed
+      && negb missed && dec_ok
   end.
 End Eval.
 
